@@ -15,7 +15,7 @@ func checkC04(c *Ctx) {
 	if c.quick() {
 		c.runStoreMC(exact2, "OpsAll", "MCKeysQuick", 4, "exact x exact")
 	} else {
-		c.runStoreMC(exact2, "OpsAll", "MCKeys", 6, "exact x exact")
+		c.runStoreMC(exact2, "OpsAll", "MCKeys", 5, "exact x exact")
 	}
 	c.runDenseImplMC("IK_ExactExact", 2, "dense x dense (array level)")
 	c.runPagedImplMC()
